@@ -326,4 +326,434 @@ def gen_C02(rng, tier):
     return cases
 
 
-GENS = {"C01": gen_C01, "C02": gen_C02, "C03": gen_C03, "C04": gen_C04, "C05": gen_C05, "C06": gen_C06, "C07": gen_C07}
+# ----------------------------------------------------------------------------- C08 / C09 / C10 statistics
+def rand_leaf_pow2(rng, nan=0.3):
+    """a leaf whose finite span is a power of two (so that length shares are exact in binary64)"""
+    span = rng.choice([1, 2, 4, 8])
+    start = F(rng.randint(-4, 4), 2)
+    n_inner = rng.choice([0, 1, 2, 3, 4])
+    inner = sorted(rng.sample([start + F(k * span, 8) for k in range(1, 8)], min(n_inner, 7)))
+    pts = [start] + inner + [start + span]
+    pool = [F(k, 2) for k in range(-4, 7)]
+    vals, usenan = [], rng.random() < nan
+    for _ in range(len(pts) + 1):
+        while True:
+            v = None if (usenan and rng.random() < 0.3) else rng.choice(pool)
+            if not vals or v != vals[-1]:
+                break
+        vals.append(v)
+    if all(v is None for v in vals[1:-1]):
+        vals[1] = F(1)
+        if vals[0] == vals[1]:
+            vals[0] = F(0)
+        if len(vals) > 2 and vals[2] == vals[1]:
+            vals[2] = F(3)
+    return pts, vals
+
+
+def has_finite_defined(leaf):
+    pts, vals = leaf
+    return any(v is not None for v in vals[1:-1])
+
+
+def gen_C08(rng, tier):
+    n = 1500 if tier == "quick" else 12000
+    small = [x for x in canonical_leaves([F(0), F(1), F(2), F(4)], [None, F(-1), F(0), F(2)]) if has_finite_defined(x)]
+    cases = []
+    for k in range(2 * n):
+        exact = k % 3 == 0
+        if k < n // 2:
+            f = rng.choice(small)
+        else:
+            f = rand_leaf_pow2(rng) if exact else rand_leaf(rng, maxn=7)
+        c = rng.choice(SIDES)
+        prog = [leaf_stmt(0, f, c)]
+        if rng.random() < 0.3:
+            lo, hi = bounds(rng, f)
+            prog.append(C.clip(0, 0, lo, hi))       # clipped functions
+        qs = [C.query(0, "value_sums"), C.query(0, "integral"), C.query(0, "mean"), C.query(0, "var"),
+              C.query(0, "agg", name="integral"), C.query(0, "agg", name="mean")]
+        rng.shuffle(qs)
+        prog += qs[: rng.randint(3, 6)]
+        if not has_finite_defined(f):
+            prog = [s for s in prog if not (s["s"] == "query" and s["q"] == "var")]
+        cases.append(mk(f"C08/{'exact' if exact else 'tol'}/{k}", prog, flav(rng, has_nan(f)), mode="tol", tags=["stats"]))
+    return cases
+
+
+def gen_C09(rng, tier):
+    n = 1500 if tier == "quick" else 12000
+    cases = []
+    for k in range(2 * n):
+        f = rand_leaf_pow2(rng)
+        c = rng.choice(SIDES)
+        pts, vals = f
+        dvals = sorted({v for v in vals[1:-1] if v is not None})
+        ys = sorted(set(dvals + [v + F(1, 4) for v in dvals] + [dvals[0] - 1]))
+        # cumulative shares are exact: total span is a power of two
+        total = sum((pts[i + 1] - pts[i] for i in range(len(pts) - 1) if vals[i + 1] is not None), F(0))
+        shares, cum = [], F(0)
+        sums = {}
+        for i in range(len(pts) - 1):
+            if vals[i + 1] is not None:
+                sums[vals[i + 1]] = sums.get(vals[i + 1], F(0)) + pts[i + 1] - pts[i]
+        for v in sorted(sums):
+            cum += sums[v]
+            shares.append(cum / total)
+        pow2 = (total.numerator & (total.numerator - 1)) == 0
+        ps = {F(0), F(100), F(50), F(25), F(75)}
+        if pow2:
+            ps |= {sh * 100 for sh in shares}
+            ps |= {(a + b) * 50 for a, b in zip([F(0)] + shares, shares)}
+        else:       # stay away from share boundaries, where binary64 rounding decides
+            ps = {p for p in ps if all(abs(p - sh * 100) > F(1, 1000) for sh in shares)} | {F(0), F(100)}
+        ps = sorted(ps)
+        edges = sorted(set([dvals[0] - 1] + dvals + [dvals[-1] + 1] + [dvals[0] + F(1, 2)]))
+        bins = list(zip(edges, edges[1:]))
+        hstat = rng.choice(["sum", "frequency", "density", "probability"])
+        if hstat in ("frequency", "density"):
+            pow2 = False      # quotients by bin widths are not exact: tolerant comparison
+        qs = [C.query(0, "ecdf", side="right", ys=ys), C.query(0, "ecdf", side="left", ys=ys),
+              C.query(0, "percentile", ps=ps), C.query(0, "fractile", ps=[p / 100 for p in ps]),
+              C.query(0, "median"), C.query(0, "mode"), C.query(0, "value_sums"),
+              C.query(0, "hist", bins=bins, closed=rng.choice(SIDES), stat=hstat)]
+        rng.shuffle(qs)
+        prog = [leaf_stmt(0, f, c)] + qs[: rng.randint(4, 8)]
+        cases.append(mk(f"C09/{'pow2' if pow2 else 'gen'}/{k}", prog, flav(rng, has_nan(f)), mode="exact" if pow2 else "tol", tags=["dist"]))
+    return cases
+
+
+IVC = ["left", "right", "both", "neither"]
+
+
+def gen_C10(rng, tier):
+    n = 1500 if tier == "quick" else 12000
+    small = canonical_leaves(SMALL_PTS, SMALL_VALS)
+    cases = []
+    for k in range(2 * n):
+        f = rng.choice(small) if k % 2 else rand_leaf(rng)
+        c = rng.choice(SIDES)
+        pts = leaf_points(f)
+        prog = [leaf_stmt(0, f, c)]
+        for _ in range(rng.randint(2, 5)):
+            lo = rng.choice([None] + pts)
+            hi = rng.choice([None] + [p for p in pts if lo is None or p > lo])      # a window has lower < upper
+            cl = rng.choice(IVC + [None])
+            kind = rng.choice(["vir", "min", "max", "aggmin", "aggmax"])
+            if kind in ("vir", "min", "max"):
+                prog.append(C.query(0, kind, lo=lo, hi=hi, closed=cl))
+            else:
+                prog.append(C.query(0, "agg", name=kind[3:], lo=lo, hi=hi, closed=cl))
+        prog += [C.query(0, "min"), C.query(0, "max"), C.query(0, "vir")]
+        cases.append(mk(f"C10/{k}", prog, flav(rng, has_nan(f)), tags=["range"]))
+    return cases
+
+
+# ----------------------------------------------------------------------------- random programs
+EXACT_SCAL = [F(0), F(1), F(-1), F(2), F(1, 2), F(-2), None]
+
+
+def rand_program(rng, n_ops, closed_same=0.95, kinds=None, n_leaves=None, reads=0.15, div=True):
+    """a straight-line program: leaves, then n_ops operations each binding a new register; returns
+    (prog, registers bound to step functions)"""
+    kinds = kinds or ["bin", "bin", "bin", "scal", "un", "clip", "mask", "where", "maskt", "fills", "fillm", "fillg",
+                      "shift", "layer"]
+    n_leaves = n_leaves or rng.randint(1, 3)
+    base = rng.choice(SIDES)
+    prog, regs = [], []
+    anynan = False
+    for i in range(n_leaves):
+        lf = rand_leaf(rng, maxn=4, vals=[F(k, 2) for k in range(-4, 5)]) if rng.random() < 0.8 else ([], [rng.choice(EXACT_SCAL)])
+        c = base if rng.random() < closed_same else rng.choice(SIDES)
+        prog.append(leaf_stmt(i, lf, c))
+        regs.append(i)
+        anynan = anynan or has_nan(lf)
+    nxt = n_leaves
+    pts_pool = [F(k, 2) for k in range(-2, 14)]
+    for _ in range(n_ops):
+        k = rng.choice(kinds)
+        a = rng.choice(regs)
+        if rng.random() < reads:
+            prog.append(C.read(a, rng.choice(["values", "deltas", "frame"])))
+        if k == "bin":
+            ops = C.BINOPS if div else [o for o in C.BINOPS if o != "div"]
+            op = rng.choice(ops)
+            b = rng.choice(regs)
+            if op == "div":      # exactness: divide only by 0/1-valued or power-of-two data
+                prog.append(C.bin_(nxt, rng.choice(["ne", "lt"]), C.reg(b), C.cst(rng.choice([F(0), F(1)]))))
+                b = nxt
+                nxt += 1
+            prog.append(C.bin_(nxt, op, C.reg(a), C.reg(b)))
+        elif k == "scal":
+            op = rng.choice(C.BINOPS)
+            c = rng.choice(EXACT_SCAL)
+            if op == "div" and rng.random() < 0.5:
+                prog.append(C.bin_(nxt, op, C.reg(a), C.cst(c)))
+            elif op == "div":
+                prog.append(C.bin_(nxt, "ne", C.reg(a), C.cst(0)))
+                nxt += 1
+                prog.append(C.bin_(nxt, op, C.cst(c), C.reg(nxt - 1)))
+            elif rng.random() < 0.5:
+                prog.append(C.bin_(nxt, op, C.reg(a), C.cst(c)))
+            else:
+                prog.append(C.bin_(nxt, op, C.cst(c), C.reg(a)))
+        elif k == "un":
+            prog.append(C.un(nxt, rng.choice(["neg", "invert", "make_boolean", "isna", "notna", "copy"]), a))
+        elif k == "fillm":
+            prog.append(C.un(nxt, rng.choice(["ffill", "bfill"]), a))
+        elif k == "clip":
+            lo = rng.choice([None] + pts_pool)
+            hi = rng.choice([None] + [x for x in pts_pool if lo is None or x > lo])
+            prog.append(C.clip(nxt, a, lo, hi))
+        elif k in ("mask", "where"):
+            prog.append(C.mask(nxt, a, rng.choice(regs), inverse=(k == "where")))
+        elif k == "maskt":
+            lo = rng.choice([None] + pts_pool)
+            hi = rng.choice([None] + [x for x in pts_pool if lo is None or x > lo])
+            prog.append(C.maskt(nxt, a, lo, hi, inverse=rng.random() < 0.5))
+        elif k == "fills":
+            prog.append(C.fills(nxt, a, rng.choice([F(0), F(1), F(3), F(-1, 2)])))
+        elif k == "fillg":
+            prog.append(C.fillg(nxt, a, rng.choice(regs)))
+        elif k == "shift":
+            prog.append(C.shift(nxt, a, rng.choice([F(-1), F(1, 2), F(2), F(0)])))
+        elif k == "layer":
+            prog.append(C.un(nxt, "copy", a))
+            prog.append(rand_layer_call(rng, nxt))
+        regs.append(nxt)
+        nxt += 1
+    return prog, regs, anynan
+
+
+def gen_C16(rng, tier):
+    n = 700 if tier == "quick" else 6000
+    cases = []
+    for k in range(n):
+        prog, regs, anynan = rand_program(rng, rng.randint(2, 4 if tier == "quick" else 6))
+        last = regs[-1]
+        prog = prog + [C.read(last, "frame"), C.query(last, "nsteps")]
+        # the same program under several provenance / materialisation / scalar-type variants
+        for v in range(4):
+            cases.append(mk(f"C16/{k}/v{v}", prog, flav(rng, anynan), tags=["program"]))
+    return cases
+
+
+IDENTITIES = ["add_comm", "mul_comm", "add_assoc", "mul_assoc", "distrib", "demorgan", "sub_self", "double_neg",
+              "mask_where", "and_comm", "or_assoc"]
+
+
+def gen_C12(rng, tier):
+    n = 700 if tier == "quick" else 6000
+    cases = []
+    # (a) every result of every operation is minimal: raw step tables are compared with the model and the oracle
+    for k in range(n):
+        prog, regs, anynan = rand_program(rng, rng.randint(1, 3))
+        extra = []
+        for r in regs[-2:]:
+            extra += [C.query(r, "nsteps"), C.query(r, "points"), C.query(r, "identical", a=C.reg(r)), C.query(r, "bool")]
+        r1, r2 = rng.choice(regs), rng.choice(regs)
+        extra += [C.query(r1, "identical", a=C.reg(r2)), C.query(r2, "identical", a=C.reg(r1))]
+        cases.append(mk(f"C12/min/{k}", prog + extra, flav(rng, anynan), tags=["minimal"]))
+    # (b) value coincidences that make results constant on adjacent pieces
+    small = canonical_leaves(SMALL_PTS, [None, F(0), F(1), F(2)])
+    for k in range(n):
+        f, g = rng.choice(small), rng.choice(small)
+        c = rng.choice(SIDES)
+        kind = rng.choice(["mul0", "zerodiv", "cdiv", "constmask", "cancel", "fromvals", "f-f", "scal_ident"])
+        prog = [leaf_stmt(0, f, c), leaf_stmt(1, g, c)]
+        if kind == "mul0":
+            prog.append(C.bin_(2, "mul", C.reg(0), C.cst(0)))
+        elif kind == "zerodiv":
+            prog.append(C.bin_(2, "div", C.cst(0), C.reg(0)))
+        elif kind == "cdiv":
+            prog += [C.bin_(3, "ne", C.reg(0), C.cst(0)), C.bin_(2, "div", C.cst(rng.choice([F(1), F(-1), F(2)])), C.reg(3))]
+        elif kind == "constmask":
+            prog += [C.new(3, rng.choice([F(0), F(1), None]), c), C.mask(2, 3, 1, inverse=rng.random() < 0.5)]
+        elif kind == "cancel":
+            a, b, v = rng.choice(SMALL_PTS), rng.choice(SMALL_PTS), rng.choice([F(1), F(2)])
+            prog += [C.new(2, rng.choice([F(0), F(1)]), c), C.layer_s(2, a, b, v), C.layer_s(2, a, b, -v)]
+        elif kind == "fromvals":
+            rows = [(F(i), rng.choice([F(0), F(0), F(1), None])) for i in range(rng.randint(1, 4))]
+            prog += [C.from_values(2, rng.choice([F(0), None]), rows, c)]
+        elif kind == "f-f":
+            prog += [C.bin_(2, "sub", C.reg(0), C.reg(0)), C.bin_(3, "mul", C.reg(0), C.cst(0)), C.query(2, "identical", a=C.reg(3))]
+        else:
+            prog += [C.new(2, rng.choice([F(0), F(1), F(2)]), c), C.query(2, "identical", a=C.cst(rng.choice([F(0), F(1), F(2)]))),
+                     C.query(2, "bool")]
+        prog += [C.query(2, "nsteps"), C.query(2, "points"), C.query(2, "bool"), C.query(2, "identical", a=C.reg(0)),
+                 C.query(0, "identical", a=C.reg(2))]
+        cases.append(mk(f"C12/{kind}/{k}", prog, flav(rng, has_nan(f) or has_nan(g)), tags=[kind]))
+    # (c) identities of pointwise algebra, up to identical(), in both directions
+    vals = [None, F(0), F(1), F(-1), F(2)]
+    leaves3 = canonical_leaves(SMALL_PTS, vals)
+    for k in range(n):
+        f, g, h = (rng.choice(leaves3) if rng.random() < 0.5 else rand_leaf(rng, maxn=3, vals=[F(-1), F(0), F(1), F(2), F(1, 2)]) for _ in range(3))
+        c = rng.choice(SIDES)
+        ident = rng.choice(IDENTITIES)
+        P = [leaf_stmt(0, f, c), leaf_stmt(1, g, c), leaf_stmt(2, h, c)]
+        R = C.reg
+        if ident == "add_comm":
+            P += [C.bin_(3, "add", R(0), R(1)), C.bin_(4, "add", R(1), R(0))]
+        elif ident == "mul_comm":
+            P += [C.bin_(3, "mul", R(0), R(1)), C.bin_(4, "mul", R(1), R(0))]
+        elif ident == "and_comm":
+            P += [C.bin_(3, "and", R(0), R(1)), C.bin_(4, "and", R(1), R(0))]
+        elif ident == "add_assoc":
+            P += [C.bin_(5, "add", R(0), R(1)), C.bin_(3, "add", R(5), R(2)), C.bin_(6, "add", R(1), R(2)), C.bin_(4, "add", R(0), R(6))]
+        elif ident == "mul_assoc":
+            P += [C.bin_(5, "mul", R(0), R(1)), C.bin_(3, "mul", R(5), R(2)), C.bin_(6, "mul", R(1), R(2)), C.bin_(4, "mul", R(0), R(6))]
+        elif ident == "or_assoc":
+            P += [C.bin_(5, "or", R(0), R(1)), C.bin_(3, "or", R(5), R(2)), C.bin_(6, "or", R(1), R(2)), C.bin_(4, "or", R(0), R(6))]
+        elif ident == "distrib":
+            P += [C.bin_(5, "add", R(1), R(2)), C.bin_(3, "mul", R(0), R(5)), C.bin_(6, "mul", R(0), R(1)), C.bin_(7, "mul", R(0), R(2)),
+                  C.bin_(4, "add", R(6), R(7))]
+        elif ident == "demorgan":
+            P += [C.bin_(5, "and", R(0), R(1)), C.un(3, "invert", 5), C.un(6, "invert", 0), C.un(7, "invert", 1), C.bin_(4, "or", R(6), R(7))]
+        elif ident == "sub_self":
+            P += [C.bin_(3, "sub", R(0), R(0)), C.bin_(4, "mul", R(0), C.cst(0))]
+        elif ident == "double_neg":
+            P += [C.un(5, "invert", 0), C.un(3, "invert", 5), C.un(4, "make_boolean", 0)]
+        elif ident == "mask_where":
+            P += [C.mask(3, 0, 1), C.un(5, "invert", 1), C.mask(4, 0, 5, inverse=True)]
+        P += [C.query(3, "identical", a=R(4)), C.query(4, "identical", a=R(3)), C.query(3, "nsteps"), C.query(4, "nsteps")]
+        cases.append(mk(f"C12/{ident}/{k}", P, flav(rng, any(has_nan(x) for x in (f, g, h))), tags=[ident]))
+    return cases
+
+
+def gen_C13(rng, tier):
+    n = 2500 if tier == "quick" else 20000
+    cases = []
+    for k in range(n):
+        prog, regs, anynan = rand_program(rng, rng.randint(1, 2), kinds=["bin", "scal", "un", "clip", "mask", "where", "maskt",
+                                                                         "fills", "fillm", "fillg", "shift"], reads=0.3)
+        res = regs[-1]
+        ops = [r for r in regs[:-1]]
+        # unbounded clip / where((None, None)) / mask by a constant hand back copies, not operands
+        if rng.random() < 0.25:
+            a = rng.choice(regs)
+            prog.append(rng.choice([C.clip(res + 1, a, None, None), C.maskt(res + 1, a, None, None, inverse=True),
+                                    C.bin_(res + 1, "add", C.reg(a), C.cst(0))]))
+            ops.append(res)
+            res = res + 1
+        snapshot = [C.read(r, "frame") for r in ops + [res]]
+        # mutate the result (scalar layer at an existing point, at a new point, vector layer) and re-inspect everything
+        target = res if rng.random() < 0.6 else rng.choice(ops + [res])
+        muts = []
+        for _ in range(rng.randint(1, 2)):
+            muts.append(rand_layer_call(rng, target, pts=[None, F(0), F(1), F(2), F(1, 2), F(3), F(5, 2), F(9, 2)]))
+        after = [C.read(r, "frame") for r in ops + [res]] + [C.query(r, "closed") for r in ops + [res]]
+        cases.append(mk(f"C13/{k}", prog + snapshot + muts + after, flav(rng, anynan), tags=["mutate-then-observe"]))
+    return cases
+
+
+STAT_Q = ["integral", "mean", "var", "min", "max", "value_sums", "ecdf", "percentile", "fractile", "median", "mode", "hist"]
+
+
+def stat_query(rng, r, kind):
+    if kind == "ecdf":
+        return C.query(r, "ecdf", side=rng.choice(["left", "right"]), ys=[F(0), F(1), F(2), F(1, 2)])
+    if kind == "percentile":
+        return C.query(r, "percentile", ps=[F(0), F(50), F(100)])
+    if kind == "fractile":
+        return C.query(r, "fractile", ps=[F(0), F(1, 2), F(1)])
+    if kind == "hist":
+        return C.query(r, "hist", bins=[(F(-2), F(0)), (F(0), F(1)), (F(1), F(4))], closed=rng.choice(SIDES), stat=rng.choice(["sum", "probability"]))
+    return C.query(r, kind)
+
+
+def gen_C14(rng, tier):
+    n = 2500 if tier == "quick" else 20000
+    cases = []
+    for k in range(n):
+        c = rng.choice(SIDES)
+        # a function with finite pieces of total length a power of two, so that every answer is exact
+        base = ([F(0), F(4)], [F(0), rng.choice([F(1), F(2)]), F(0)]) if rng.random() < 0.7 else rand_leaf_pow2(rng, nan=0)
+        prog = [leaf_stmt(0, base, c)]
+        lay_pts = [None, F(0), F(1), F(2), F(4)] if base[0] == [F(0), F(4)] else [None] + base[0]
+        undo = None
+        for _ in range(rng.randint(2, 6)):
+            r = rng.random()
+            if r < 0.45:
+                prog.append(stat_query(rng, 0, rng.choice(STAT_Q)))
+            elif r < 0.8:
+                a, b = rng.choice(lay_pts), rng.choice(lay_pts)
+                v = rng.choice([F(1), F(-1), F(2)])
+                if rng.random() < 0.5:
+                    prog.append(C.layer_s(0, a, b, v))
+                else:
+                    prog.append(C.layer_v(0, [(a, b, v)]))
+                undo = (a, b, -v)
+            elif undo is not None:
+                prog.append(C.layer_s(0, *undo))     # a mutation that returns the function to an earlier state
+                undo = None
+            if rng.random() < 0.5:
+                prog.append(stat_query(rng, 0, rng.choice(STAT_Q)))
+        prog += [stat_query(rng, 0, q) for q in rng.sample(STAT_Q, 4)] + [C.read(0, "frame")]
+        cases.append(mk(f"C14/{k}", prog, flav(rng, False), mode="tol", tags=["history"]))
+    return cases
+
+
+SHAPES = ["steps", "steps_nan_left", "const1", "const0", "constnan"]
+
+
+def shape_leaf(rng, shape):
+    if shape == "steps":
+        return ([F(1), F(3)], [F(0), rng.choice([F(1), F(2)]), F(0)])
+    if shape == "steps_nan_left":
+        return ([F(1), F(3)], [None, F(1), rng.choice([F(0), F(2)])])
+    return ([], [{"const1": F(1), "const0": F(0), "constnan": None}[shape]])
+
+
+def gen_C15(rng, tier):
+    """the complete grid: operand shapes^2 x closed^2 x every operation"""
+    cases = []
+    k = 0
+    unary = ["neg", "invert", "make_boolean", "isna", "notna", "copy", "ffill", "bfill"]
+    for sa in SHAPES:
+        for ca in SIDES:
+            fa = shape_leaf(rng, sa)
+            # unary operations, clip, tuple shorthands, scalar fill, shift, diff, scalar operators
+            P = [leaf_stmt(0, fa, ca)]
+            r = 1
+            for u in unary:
+                P.append(C.un(r, u, 0)); r += 1
+            for lo, hi in [(None, None), (F(0), F(2)), (F(2), None), (None, F(2)), (F(5), F(6))]:
+                P.append(C.clip(r, 0, lo, hi)); r += 1
+                P.append(C.maskt(r, 0, lo, hi)); r += 1
+                P.append(C.maskt(r, 0, lo, hi, inverse=True)); r += 1
+            P.append(C.fills(r, 0, 1)); r += 1
+            P.append(C.shift(r, 0, 1)); r += 1
+            P.append(C.diff(r, 0, 1)); r += 1
+            for op in C.BINOPS:
+                for c in (F(0), F(2), None):
+                    P.append(C.bin_(r, op, C.reg(0), C.cst(c))); r += 1
+                    P.append(C.bin_(r, op, C.cst(c), C.reg(0))); r += 1
+            cases.append(mk(f"C15/unary/{sa}/{ca}", P, flav(rng, has_nan(fa)), tags=["grid-unary"]))
+            for sb in SHAPES:
+                for cb in SIDES:
+                    fb = shape_leaf(rng, sb)
+                    P = [leaf_stmt(0, fa, ca), leaf_stmt(1, fb, cb)]
+                    r = 2
+                    for op in C.BINOPS:
+                        P.append(C.bin_(r, op, C.reg(0), C.reg(1))); r += 1
+                    P.append(C.mask(r, 0, 1)); r += 1
+                    P.append(C.mask(r, 0, 1, inverse=True)); r += 1
+                    P.append(C.fillg(r, 0, 1)); r += 1
+                    fl = flav(rng, has_nan(fa) or has_nan(fb))
+                    cases.append(mk(f"C15/binary/{sa}/{ca}/{sb}/{cb}", P, fl, tags=["grid-binary"]))
+                    k += 1
+    # random operands on the same grid of operations (results that are step-free or everywhere undefined included)
+    n = 300 if tier == "quick" else 4000
+    for i in range(n):
+        f, g = rand_leaf(rng, maxn=3), rand_leaf(rng, maxn=3)
+        ca, cb = rng.choice(SIDES), rng.choice(SIDES)
+        P = [leaf_stmt(0, f, ca), leaf_stmt(1, g, cb)]
+        r = 2
+        for op in rng.sample([o for o in C.BINOPS if o != "div"], 4):
+            P.append(C.bin_(r, op, C.reg(0), C.reg(1))); r += 1
+        P += [C.mask(r, 0, 1), C.mask(r + 1, 0, 1, inverse=True), C.fillg(r + 2, 0, 1), C.shift(r + 3, 0, 1), C.clip(r + 4, 1, None, F(2))]
+        cases.append(mk(f"C15/rand/{i}", P, flav(rng, has_nan(f) or has_nan(g)), tags=["grid-random"]))
+    return cases
+
+
+GENS = {"C12": gen_C12, "C13": gen_C13, "C14": gen_C14, "C15": gen_C15, "C16": gen_C16, "C08": gen_C08, "C09": gen_C09, "C10": gen_C10, "C01": gen_C01, "C02": gen_C02, "C03": gen_C03, "C04": gen_C04, "C05": gen_C05, "C06": gen_C06, "C07": gen_C07}
